@@ -252,3 +252,44 @@ Theorem adaptive_blocks_tile_refuted :
   exists size win, geom_ok size size win = true /\ last (ax_bounds (axis_geom size win)) 0%Z = (size - 1)%Z.
 Proof. exact adaptive_blocks_tile_refuted_lemma. Qed.
 Print Assumptions adaptive_blocks_tile_refuted.
+
+(* ---------------------------------------------------------------- bodies of Kapur / Background / RobustBackground *)
+From Centro Require Import Model.RobustQ Proofs.ThresholdBodies.
+
+(* masked-crop non-interference for the three bodies: their REGENERATED access lists say that each reads `image`
+   only as image[mask] (or the whole image when mask is None), and any function of that crop cannot distinguish
+   images agreeing on the mask *)
+Theorem body_methods_crop_first :
+  (forall f, In f ["get_kapur_threshold"; "get_background_threshold"; "get_robust_background_threshold"]%string ->
+     exists acc, In (f, acc) threshold_access /\ forallb access_ok acc = true /\
+                 (forall a, In a acc -> a = CropMask \/ a = WholeIfNoMask)) /\
+  (forall (A T : Type) (G : list A -> T) H W mask a b,
+     agree A H W mask a b -> G (crop A H W a mask) = G (crop A H W b mask)).
+Proof. exact body_methods_crop_first_lemma. Qed.
+Print Assumptions body_methods_crop_first.
+
+(* Background: for every arg-max bin of the regenerated nbins-bin histogram the returned value is in
+   [min, min + 2 (max - min)] *)
+Theorem background_value_range : forall index mn mx,
+  0 <= index -> index <= inject_Z (background_nbins - 1) -> mn <= mx ->
+  mn <= background_value index mn mx /\ background_value index mn mx <= mn + (2 # 1) * (mx - mn).
+Proof. exact background_value_range_lemma. Qed.
+Print Assumptions background_value_range.
+
+(* Kapur: the exponent of the returned 2 ** (mean of two adjacent levels) lies between the smallest and the largest
+   log2 intensity (regenerated level formula) *)
+Theorem kapur_midpoint_range : forall i j lo hi,
+  0 <= i -> i <= inject_Z (kapur_nlevels - 1) -> 0 <= j -> j <= inject_Z (kapur_nlevels - 1) -> lo <= hi ->
+  lo <= (kapur_level i lo hi + kapur_level j lo hi) / (2 # 1) /\ (kapur_level i lo hi + kapur_level j lo hi) / (2 # 1) <= hi.
+Proof. exact kapur_midpoint_range_lemma. Qed.
+Print Assumptions kapur_midpoint_range.
+
+(* RobustBackground: the mean of the trimmed sample of the reference model (tied by the stream `rob`) lies between
+   the smallest and the largest value, whatever the fractions; the defaults are the regenerated ones *)
+Theorem robust_mean_range : forall data lof uof lo hi,
+  (forall x, In x data -> (lo <= x <= hi)%Z) ->
+  let im := snd (robust_trim (zsort data) lof uof) in
+  im <> [] ->
+  inject_Z lo <= fst (mean_var im) /\ fst (mean_var im) <= inject_Z hi.
+Proof. exact robust_mean_range_lemma. Qed.
+Print Assumptions robust_mean_range.
